@@ -171,6 +171,13 @@ func main() {
 		}
 		return
 	}
+	if *dump == "jobclose" {
+		ctx := &Ctx{P: p, R: r, Rep: newReport("dump", p), Tier: *tier}
+		for _, l := range ctx.jobCloseTable().dump() {
+			fmt.Println(l)
+		}
+		return
+	}
 	if *dump == "lifecycle" {
 		ctx := &Ctx{P: p, R: r, Rep: newReport("dump", p), Tier: *tier}
 		for _, l := range ctx.lifecycle().dump() {
